@@ -242,6 +242,18 @@ func TestCheck(t *testing.T) {
 	rep.Info["max_deviation_bound_completed"] = bound
 	rep.Info["rule"] = "3 client actors (A: h2, two multiplexed requests; B: h1 keep-alive, two requests, same peer address as A; C: h2, one request, disconnect, reconnect as h1 with a fourth hello) x serveConn gates; all interleavings with <= bound deviations from the sequential order"
 	rep.Assume("interleavings at environment-step and vhook-gate granularity", "references: chello parser + ja3ref + ja4ref + h2fpref (independent of the code under test)")
+	if rq, ok := ev.ReplayRequest(); ok {
+		o, trace := mc.Replay(ev.Ints(rq["choices"]), func(c *mc.Chooser) mc.Outcome { return runOne(t, c) })
+		rep.Add("schedules", 1)
+		rep.Add("states", int64(len(trace)))
+		rep.Add("transitions", int64(len(trace)))
+		rep.Add("traces_validated_against_impl", 1)
+		rep.Sample(map[string]any{"replayed_schedule": trace, "observation": o.Obs})
+		for i, v := range o.Violations {
+			rep.Violate(map[string]any{"kind": o.Sigs[i]}, rq, "%s", v)
+		}
+		return
+	}
 	e := &mc.Explorer{Bound: bound, Shard: shard, Of: of, Deadline: time.Now().Add(budget)}
 	func() {
 		defer func() {
